@@ -13,6 +13,24 @@ ASSUMPTIONS = ["a socket that neither sends nor closes blocks by design (outside
                "file read(n)/socket recv(n) return the next min(n, remaining) bytes, b'' when exhausted"]
 
 
+TIES = ["packet length in ccsds_generator (n_bytes_data, n_bytes_packet) = Model/Framer.v plen_ccsds (gen_packet_length_is_model)"]
+
+
+def tables():
+    """the translated part of the model: the two expressions by which ccsds_generator computes a packet's length from its header are
+    turned into Gallina from the current source (with _extract_bits, Gen/Fun_C03.v) and proved equal to Model/Framer.v's plen_ccsds
+    (Gen/FunOk_C02.v) on every run"""
+    import gen_fun
+    from props import c03
+    ok, msg = gen_fun.check("C03", c03.fun_items(), "FunOk_C03")
+    if not ok:
+        return ok, msg
+    pk = "space_packet_parser/packets.py"
+    return gen_fun.check("C02", [("expr", pk, "ccsds_generator", "n_bytes_data", "gen_n_bytes_data", ["header_bytes"], {"_extract_bits": "gen_extract_bits"}),
+                                 ("expr", pk, "ccsds_generator", "n_bytes_packet", "gen_n_bytes_packet", ["n_bytes_data"], None, ("RawPacketData",))],
+                         "FunOk_C02", imports="From SPP Require Import Gen.Fun_C03.\n")
+
+
 def gen(rng, tier):
     cases = []
     nstreams = 5 if tier == "quick" else 60
